@@ -375,7 +375,7 @@ def _run(prop, tier, seed, n_override=None):
     if evaluations == 0 and not harness_errors:
         print(f"HARNESS-ERROR property={prop}: no run was executed (nothing explored) - refusing to report success")
         return 2
-    if harness_errors:
+    if harness_errors and first_violation is None:
         idx, msg, case = harness_errors[0]
         print(f"HARNESS-ERROR property={prop} run_index={idx}:\n{msg}")
         if case is not None:
@@ -384,6 +384,9 @@ def _run(prop, tier, seed, n_override=None):
             print(f"harness case written to {p}")
         exit_code = 2
     elif first_violation is not None:
+        if harness_errors:
+            print(f"note: {len(harness_errors)} run(s) also ended in a harness error (e.g. memory limit); first: "
+                  f"run_index={harness_errors[0][0]} {harness_errors[0][1][-200:]!r}")
         rec = first_violation[1]
         case, v = rec["case"], rec["violation"]
         print(f"violation found: run_index={rec['idx']} class={v['class']} detail={json.dumps(v.get('detail'))[:400]}")
